@@ -3,6 +3,7 @@ CC = "internal/app/connectconformance"
 CHECK = {
     "level": "model_checking",
     "assumptions": [
+        "c10-osproc is exhaustive over its program x driver list, not over OS schedules; its only wall-clock oracle is a 90 s watchdog against 20 s for the slowest legitimate path",
         "sequential consistency; preemption only at gates (mutex acquisition, atomic access, fake-process events)",
         "race-freedom of the segments between gates (checked separately by the free-running -race unit in the thorough tier)",
         "the scripted fake client process covers the behaviours of a real one: answer order, exit, truncation, duplicate, unknown, oversize, garbage, stall, stdin failures",
@@ -11,7 +12,7 @@ CHECK = {
     "manifest": {
         "engine": "GATE",
         "technique": "stateless model checking of the real goroutines (controlled scheduler in a synctest bubble, preemption-bounded DFS with state caching)",
-        "text": "Every interleaving, at mutex/atomic/process-event granularity and up to the stated preemption bound (1 quick, 2 thorough), of the real runClient multiplexer against a scripted client process is executed, for every scenario of a small alphabet (1-2 senders, 1-2 requests, colliding names, 9 client faults at every answer count, every cut offset, stdin failures); each execution is judged: callbacks == accepted sends, own response only, refusal afterwards, isRunning false, waitForResponses returns, no deadlock.",
+        "text": "Every interleaving, at mutex/atomic/process-event granularity and up to the stated preemption bound (1 quick, 2 thorough), of the real runClient multiplexer against a scripted client process is executed, for every scenario of a small alphabet (1-2 senders, 1-2 requests, colliding names, 9 client faults at every answer count, every cut offset, stdin failures); each execution is judged: callbacks == accepted sends, own response only, refusal afterwards, isRunning false, waitForResponses returns, no deadlock. Added after the seeding rounds: a client that stops reading its input; io.Pipe semantics for the client's stdin (every write, a zero-length one included, completes only at a client.read gate) with an early-answering client; answers delivered in every cut into <= 3 pieces followed by silence; isRunning() sampled when a failure is reported; closed input x stream failure; output cut with exit status 0; a second framed stream of the process that times out mid-message and whose peer resumes at any moment; senders that pause longer than the response time-out; state keys include a reflective rendering of every field of the runner; unit c10-osproc: the client is a real OS process through runCommand/runClient (peer programs x three drivers).",
         "note": "Sequential consistency and preemption only at gates; fake process instead of an OS process; race freedom between gates assumed (free-running -race pass in thorough tier); state cache abstraction cross-checked against uncached search.",
         "design_ref": "DESIGN.md §2.1, §4 C10",
     },
